@@ -149,10 +149,25 @@ class ClassObj:
     def is_subclass(self, other):
         if self is other:
             return True
-        return any(isinstance(b, ClassObj) and b.is_subclass(other) for b in self.bases)
+        for b in self.bases:
+            if isinstance(b, ClassObj):
+                if b.is_subclass(other):
+                    return True
+            elif b is other or (isinstance(b, type) and isinstance(other, type) and issubclass(b, other)):
+                return True  # an interpreted class deriving from a native (model) class
+        return False
 
     def __repr__(self):
         return f"<class {self.name}>"
+
+
+def _class_chain(cls):
+    out, todo = [], [cls]
+    while todo:
+        c = todo.pop()
+        out.append(c)
+        todo += [b for b in c.bases if isinstance(b, ClassObj)]
+    return out
 
 
 class Obj:
@@ -571,6 +586,9 @@ class Interp:
         if isinstance(v, SBool):
             return t in (bool, int, object)
         if isinstance(t, type):
+            if isinstance(v, Obj):
+                # instance of an interpreted class that derives from a native (model) class
+                return any(b is t or (isinstance(b, type) and issubclass(b, t)) for c in _class_chain(v.cls) for b in c.bases if not isinstance(b, ClassObj))
             return isinstance(v, t)
         raise Unsupported(f"isinstance against {t!r}")
 
@@ -654,7 +672,14 @@ class Interp:
             return SReal(z3.ToReal(v.t))
         if hasattr(v, "sym_float"):
             return v.sym_float(self)
-        return float(v)
+        if isinstance(v, Obj):
+            if v._has("__float__"):
+                return self.call_method(v, "__float__", [], {})
+            raise_py("TypeError", f"float() argument must be a string or a real number, not '{v.cls.name}'")
+        try:
+            return float(v)
+        except (TypeError, ValueError) as ex:
+            raise PyExc(ExcInst(EXC[type(ex).__name__], ex.args))
 
     def _b_bool(self, v=False):
         return self.truth(v)
